@@ -130,6 +130,15 @@ Example C03_example_ret_type_rejects :
   = Err (mkErr KMismatch (spl 3)) [].
 Proof. vm_compute. reflexivity. Qed.
 
+(* the hypotheses of the unification theorems are satisfiable: two fresh variables unify *)
+Example C03_example_unify : exists s r s', wf s /\ unify (gfix 5) sp0 1%positive 2%positive s = Ok (r, s').
+Proof.
+  assert (E : exists u s, init_vars 2 empty_st = Ok (u, s)) by (vm_compute; eauto).
+  destruct E as (u & s & E). exists s.
+  assert (W : wf s) by (eapply (pres_init_vars 2); [apply wf_empty|exact E]).
+  vm_compute in E. injection E as _ <-. do 2 eexists. split; [exact W|]. vm_compute. reflexivity.
+Qed.
+
 Print Assumptions C03_placement.
 Print Assumptions C03_placement_expr.
 Print Assumptions C03_propagation.
